@@ -35,8 +35,20 @@ def renderSec (wrapC wrapV : Nat) (s : Sec V) : List (Line V) :=
 
 /-! reader -/
 def isName (l : Line V) : Bool := match l with | .w _ :: _ => true | _ => false
-def isVal : Tok V → Bool | .v _ => true | _ => false
-def hasVal (l : Line V) : Bool := l.any isVal
+/-- the regular expression `E\+?-?\d+` of `_split_series`, searched in one blank-free token -/
+def digitC (c : Char) : Bool := 48 ≤ c.toNat && c.toNat ≤ 57
+def matchEAt : List Char → Bool
+  | 'E' :: '+' :: '-' :: d :: _ => digitC d
+  | 'E' :: '+' :: d :: _ => digitC d
+  | 'E' :: '-' :: d :: _ => digitC d
+  | 'E' :: d :: _ => digitC d
+  | _ => false
+def matchE : List Char → Bool
+  | [] => false
+  | c :: s => matchEAt (c :: s) || matchE s
+/-- does the token match the E-notation pattern? (`eNot` decides it for the abstract value tokens) -/
+def isVal (eNot : V → Bool) : Tok V → Bool | .v x => eNot x | .w s => matchE s | .n _ => false
+def hasVal (eNot : V → Bool) (l : Line V) : Bool := l.any (isVal eNot)
 def asNat : Tok V → Option Nat | .n k => some k | _ => none
 def asVal : Tok V → Option V | .v x => some x | _ => none
 def firstWord (l : Line V) : Option (List Char) := match l with | .w s :: _ => some s | _ => none
@@ -49,6 +61,7 @@ def parseSec (ls : List (Line V)) (lenData : Nat) : Option (Sec V) := do
   let nvar := nums.length
   let names ← ((ls.drop cne).take nvar).mapM firstWord
   let raw := ls.drop (cne + nvar)
+  if lenData = 0 then none else          -- `len(raw_data) / 0` raises
   let stride := raw.length / lenData
   if stride * lenData ≠ raw.length then none
   else
@@ -63,18 +76,20 @@ def findFrom (p : Line V → Bool) (ls : List (Line V)) (start : Nat) : Option N
   ((ls.drop start).findIdx? p).map (· + start)
 
 /-- `_split_series` after the header has been removed: locate the second cluster of name lines and walk
-    back to the last line carrying a value -/
-def splitSeries (ls : List (Line V)) : List (Line V) × Option (List (Line V)) :=
+    back to the last line matching the E-notation pattern. `none` = the real code raises (no name line at
+    all: `indices_matches` raises; no matching line before the second cluster: the index runs off the front). -/
+def splitSeries (eNot : V → Bool) (ls : List (Line V)) : Option (List (Line V) × Option (List (Line V))) :=
   match findFrom isName ls 0 with
-  | none => (ls, none)
+  | none => none
   | some a =>
     let b := a + ((ls.drop a).takeWhile isName).length          -- end of the first cluster
     match findFrom isName ls b with
-    | none => (ls, none)
+    | none => some (ls, none)
     | some c =>
-      -- walk back from c-1 to the last line with a value token
-      let back := ((ls.take c).reverse.takeWhile fun l => !hasVal l).length
+      -- walk back from c-1 to the last line with an E-notation token
+      let back := ((ls.take c).reverse.takeWhile fun l => !hasVal eNot l).length
+      if c ≤ back then none else
       let start := c - back
-      (ls.take start, some (ls.drop start))
+      some (ls.take start, some (ls.drop start))
 
 end Res
